@@ -17,6 +17,7 @@ REPLAY_DIR = os.environ.get('VERIF_REPLAY_DIR', os.path.join(VERIF, 'replays'))
 NPROC = int(os.environ.get('VERIF_NPROC', '0')) or min(16, os.cpu_count() or 1)
 MAX_VIOL_PER_SHARD = 12
 MAX_SAMPLES = 6
+FAILFAST = bool(os.environ.get('VERIF_FAILFAST'))
 
 
 class HarnessError(Exception):
@@ -172,6 +173,17 @@ def pmap(modname, shards, nproc=None):
         for f in cf.as_completed(futs):
             try:
                 total.merge(f.result())
+                if FAILFAST and total.nviol:
+                    # mutant runs only: stop at the first violating shard (evidence is marked partial)
+                    total.extra['failfast_stopped'] = 1
+                    for g in futs:
+                        g.cancel()
+                    for proc in list(getattr(ex, '_processes', {}).values()):
+                        proc.terminate()
+                    ex.shutdown(wait=False, cancel_futures=True)
+                    break
+            except cf.CancelledError:
+                continue
             except Exception as e:  # BrokenProcessPool, worker exception
                 for g in futs:
                     g.cancel()
@@ -270,7 +282,7 @@ def finish(mod, tier, total, coverage, t0, assumptions):
     coverage.setdefault('evaluations', total.evals)
     coverage.setdefault('distinct_nontrivial', len(total.digests))
     coverage.setdefault('samples', total.samples[:MAX_SAMPLES])
-    coverage.setdefault('exhaustive', True)
+    coverage.setdefault('exhaustive', not total.extra.get('failfast_stopped'))
     coverage['outcome_histogram'] = dict(total.hist)
     coverage['counters'] = {k: (round(v, 2) if isinstance(v, float) else v)
                             for k, v in total.extra.items()}
